@@ -16,6 +16,7 @@ import (
 type c06Link struct {
 	Kind    string   `json:"kind"`    // plain optional nullable array choice scalar
 	Targets []string `json:"targets"` // type names (1, or 2 for choice)
+	Ann     string   `json:"ann,omitempty"` // a rule written next to a choice that changes nothing (type: "mixed")
 }
 
 type c06Graph struct {
@@ -61,6 +62,9 @@ func (l c06Link) text(key string, comma string) string {
 	case "array":
 		return fmt.Sprintf("\t%q: [\n\t\t%s\n\t]%s", key, t, comma)
 	case "choice":
+		if l.Ann != "" {
+			return fmt.Sprintf("\t%q: %s | %s%s // %s", key, l.Targets[0], l.Targets[1], comma, l.Ann)
+		}
 		return fmt.Sprintf("\t%q: %s | %s%s", key, l.Targets[0], l.Targets[1], comma)
 	case "wrapped": // the reference sits in a mandatory inline object: still a mandatory link
 		return fmt.Sprintf("\t%q: {\n\t\t\"n\": %s\n\t}%s", key, t, comma)
@@ -97,6 +101,9 @@ func (g *c06Graph) project() *project {
 		if l.Kind == "choice" {
 			p.Root += " | " + l.Targets[1]
 		}
+		if g.nullRoot("@main") {
+			p.Root += " // {nullable: true}"
+		}
 	}
 	for n, l := range g.Types {
 		if n != "@main" {
@@ -104,6 +111,9 @@ func (g *c06Graph) project() *project {
 				p.Types[n] = l[0].Targets[0]
 				if l[0].Kind == "choice" {
 					p.Types[n] += " | " + l[0].Targets[1]
+				}
+				if g.nullRoot(n) {
+					p.Types[n] += " // {nullable: true}"
 				}
 			} else if g.nullRoot(n) {
 				p.Types[n] = c06TypeTextNull(l)
@@ -394,6 +404,23 @@ func c06Run(w *core.W) {
 					g.Types[chain[x]] = links
 				}
 				c06Case(w, g, "chains")
+				// the same graph with the redundant rule type: "mixed" spelled out on every choice
+				if k <= 3 {
+					g2 := &c06Graph{Types: map[string][]c06Link{}}
+					any := false
+					for n, ls := range g.Types {
+						for _, l := range ls {
+							if l.Kind == "choice" {
+								l.Ann = `{type: "mixed"}`
+								any = true
+							}
+							g2.Types[n] = append(g2.Types[n], l)
+						}
+					}
+					if any {
+						c06Case(w, g2, "chains-mixed")
+					}
+				}
 			}
 		}
 	}
@@ -469,6 +496,8 @@ func c06Run(w *core.W) {
 					g.Bare = append(g.Bare, "@b")
 				}
 				c06Case(w, g, "bare-types")
+				// a bare type that is nullable as a whole: null ends whatever it refers to
+				c06Case(w, &c06Graph{Types: g.Types, Bare: g.Bare, NullRoot: []string{"@a"}}, "bare-types-nullable")
 			}
 		}
 	}
@@ -491,6 +520,21 @@ func c06Run(w *core.W) {
 					g.Bare = append(g.Bare, "@b")
 				}
 				c06Case(w, g, "bare-types")
+				if g.bare("@a") {
+					c06Case(w, &c06Graph{Types: g.Types, Bare: g.Bare, NullRoot: []string{"@a"}}, "bare-types-nullable")
+				}
+			}
+		}
+	}
+	// ... and a nullable root that is one, its own type included
+	for _, m := range bareForms {
+		for _, a := range bareForms {
+			f4++
+			if !w.Mine(f4) {
+				continue
+			}
+			for _, nr := range [][]string{{"@main"}, {"@main", "@a"}, {"@a"}} {
+				c06Case(w, &c06Graph{Types: map[string][]c06Link{"@main": m, "@a": a, "@b": {{Kind: "plain", Targets: []string{"@a"}}}, "@fin": {{Kind: "scalar"}}}, Bare: []string{"@main", "@a"}, NullRoot: nr}, "bare-types-nullable")
 			}
 		}
 	}
@@ -508,7 +552,7 @@ func init() {
 	Register(&Prop{
 		ID:        "C06",
 		Technique: "bounded exhaustive enumeration of type-reference graphs (3 object types x property sets with every link kind; chains up to length 7 with every mix of link kinds), judged by a least-fixpoint reference for 'has a finite instance' and a reachability reference for 'requires itself'",
-		Rule:      "F1: @main, @a, @b each an object with 1-2 properties, each property one of {scalar; plain/optional/nullable/array link to one of the 3 types; choice of two types}: all 650 root forms x reduced (thorough: all) forms of the other two; F2: chains @main->t1..tk->@main, k<=4 (thorough 6), each link from 6 kinds, with/without an extra scalar property; clauses: finite(root) => not 104; root reaches itself via plain links => 104; accepted => Example() returns RFC 8259 JSON; non-trivial = graphs where a clause applies",
+		Rule:      "F1: @main, @a, @b each an object with 1-2 properties, each property one of {scalar; plain/optional/nullable/array link to one of the 3 types; choice of two types}: all 650 root forms x reduced (thorough: all) forms of the other two; F2: chains @main->t1..tk->@main, k<=4 (thorough 6), each link from 6 kinds, with/without an extra scalar property, and for k<=3 with type: \"mixed\" spelled out on every choice; clauses: finite(root) => not 104; root reaches itself via plain links => 104; accepted => Example() returns RFC 8259 JSON; non-trivial = graphs where a clause applies",
 		Bounds: func(tier string) map[string]any {
 			return map[string]any{"types": 3, "max_chain": map[string]int{"quick": 5, "thorough": 7}[tier]}
 		},
